@@ -16,6 +16,7 @@ NOARG = 99
 CLAUSE_PROP = {
     'result': 'C14', 'rows': 'C14', 'len': 'C14', 'getitem': 'C14', 'slice': 'C14', 'contains': 'C14',
     'iter': 'C14', 'slice_shape': 'C14', 'parent_changed': 'C14', 'exception': 'C14', 'repr': 'C14',
+    'rev': 'C14', 'step2': 'C14', 'index': 'C14', 'count': 'C14',
     'lookup': 'C15', 'get': 'C15',
     'version': 'C10',
 }
@@ -207,6 +208,27 @@ def observe(hs, g, R, codes, rng=None, full=False):
         except Exception as e:
             obs.append({'k': 'contains', 'row': rid, 'v': type(e).__name__})
     obs.extend(observe_lookups(hs, g, R, codes))
+    if rng is not None and not full:
+        # extended slices, index() and count() (random histories only)
+        for kind, sl in (('rev', slice(None, None, -1)), ('step2', slice(None, None, 2))):
+            try:
+                d = g[sl]
+                obs.append({'k': kind, 'rows': [R.rid(x) for x in d] if type(d) is hs.Grid and shape(d) == shape(g) else [-3]})
+            except Exception as e:
+                obs.append({'k': kind, 'rows': [-2], 'exc': type(e).__name__})
+        for rid_, o in list(R.objs.items())[:6]:
+            if R.spec[rid_ - 1]['t'] != 'dict':
+                continue
+            try:
+                obs.append({'k': 'index', 'row': rid_, 'r': ['pos', g.index(o)]})
+            except ValueError:
+                obs.append({'k': 'index', 'row': rid_, 'r': ['ValueError']})
+            except Exception as e:
+                obs.append({'k': 'index', 'row': rid_, 'r': [type(e).__name__]})
+            try:
+                obs.append({'k': 'count', 'row': rid_, 'n': g.count(o)})
+            except Exception as e:
+                obs.append({'k': 'count', 'row': rid_, 'n': -1, 'exc': type(e).__name__})
     try:
         obs.append({'k': 'repr', 'ok': isinstance(repr(g), str)})
     except Exception as e:
